@@ -3,11 +3,6 @@
 (declare-const b_1 (_ BitVec 8))
 (declare-const b_2 (_ BitVec 8))
 (declare-const b_3 (_ BitVec 8))
-(declare-const b_4 (_ BitVec 8))
-(declare-const b_5 (_ BitVec 8))
-(assert (not (bvugt ((_ zero_extend 24) (bvand b_4 #x7f)) #x0fffffff)))
-(assert (= (bvand b_4 #x80) #x00))
-(assert (= (bvand b_4 #x7f) #x00))
 (assert (= b_3 #x00))
 (push 1)
 (assert (not (= b_3 #x00)))
